@@ -17,12 +17,20 @@ SID_A = "S-1-5-21-2185496602-3367037166-1388177638-1103"
 SID_B = "S-1-5-21-11-22-33-512"
 
 
-def synth_root_key(idx: int, hash_name: str = "SHA512", secret_alg: str = "DH") -> cms.RootKey:
+def synth_root_key(idx: int, hash_name: str = "SHA512", secret_alg: str = "DH", extra: t.Optional[dict] = None) -> cms.RootKey:
+    """extra: {"dh": [key_length, p, g], "priv_len": bits} for custom (small) DH groups / private key lengths."""
     seed = hashlib.sha512(b"root-key-%d-%s-%s" % (idx, hash_name.encode(), secret_alg.encode())).digest()
     priv = {"DH": 512, "ECDH_P256": 256, "ECDH_P384": 384}[secret_alg]
     pub = {"DH": 2048, "ECDH_P256": 256, "ECDH_P384": 384}[secret_alg]
+    params = b""
+    if extra:
+        if "dh" in extra:
+            kl, p, g = extra["dh"]
+            params = gkdi.pack_dh_params(kl, p, g)
+            pub = kl * 8
+        priv = extra.get("priv_len", priv)
     return cms.RootKey(key=seed, root_key_id=uuid.UUID(bytes=hashlib.md5(seed).digest()), hash_name=hash_name, secret_alg=secret_alg,
-                       secret_params=b"", private_key_length=priv, public_key_length=pub)
+                       secret_params=params, private_key_length=priv, public_key_length=pub)
 
 
 def load_into(cache, rk: cms.RootKey) -> None:
